@@ -55,8 +55,8 @@ from vf.bounded import Outcome, Failure
 from gen import g1_grammar as g1
 
 ID = 'C05'
-LEVEL = 'exploration'
-P_TARGETS = []
+LEVEL = 'other'
+P_TARGETS = ['cgsmiles.read_cgsmiles:_find_next_character']
 BUDGET = {'quick': 33.0, 'thorough': 450.0}
 CHUNK = 300
 # two small families whose failures are candidate findings (see the docstring); switch off to leave them out
